@@ -1610,6 +1610,37 @@ func runApp(id string, viaRequest bool, st *hx.Stats) string {
 	return l.String() + hx.Comment(map[string]any{"Msg": bad})
 }
 
+// runBridge (finding K12f, open): after the first request the exported registrar-bridge methods of the router — the
+// route.Registrar interface, which Route.RegisterRoute calls — are called DIRECTLY: Router.AddRouteToTree (which = 0) /
+// Router.AddVersionRoute (which = 1). Observed: did the call panic, is the route routable afterwards.
+func runBridge(id string, which int, st *hx.Stats) string {
+	r := router.MustNew(router.WithVersioning(version.WithHeaderDetection("X-API-Version"), version.WithDefault("v1")))
+	h := router.HandlerFunc(func(c *router.Context) { _ = c.String(http.StatusOK, "ok") })
+	r.GET("/r1/:id", h)
+	get := func(p string) int {
+		rec := httptest.NewRecorder()
+		r.ServeHTTP(rec, httptest.NewRequest(http.MethodGet, p, nil))
+		return rec.Code
+	}
+	get("/r1/12") // serving has begun
+	panicked := panics(func() {
+		if which == 0 {
+			r.AddRouteToTree("GET", "/r2/:id", []route.Handler{h}, nil)
+		} else {
+			r.AddVersionRoute("v1", "GET", "/r2/:id", []route.Handler{h}, nil)
+		}
+	})
+	served := get("/r2/12") == http.StatusOK
+	l := hx.NewLine(id).Tok("B").Nat(which)
+	in := l.String()
+	l.Sep().Bool(panicked).Bool(served)
+	if st != nil {
+		st.Case(in[len(id):], false)
+		st.Count("direct_registrar_bridge_call_after_freeze")
+	}
+	return l.String() + hx.Comment(map[string]any{"Bridge": which})
+}
+
 // ---------------------------------------------------------------- unscheduled kinds run in a child process
 
 // stressLine renders one unscheduled observation: the harness judged interleaving-independent facts itself.
@@ -2118,6 +2149,8 @@ func main() {
 		for i := 0; i < budget && urlOn; i++ {
 			fmt.Fprintln(w, runURL(fmt.Sprintf("c12u-%d-%d", a.Seed, i), genURLCase(r), st))
 		}
+		fmt.Fprintln(w, runBridge("c12b-0", 0, st))
+		fmt.Fprintln(w, runBridge("c12b-1", 1, st))
 		fmt.Fprintln(w, runApp("c12a-0", false, st))
 		fmt.Fprintln(w, runApp("c12a-1", true, st))
 		// unscheduled kinds, each in its own child process
@@ -2175,6 +2208,10 @@ func main() {
 					}
 					continue
 				}
+			}
+			if len(f) > 2 && f[1] == "B" {
+				fmt.Fprintln(w, runBridge(f[0], map[string]int{"0": 0, "1": 1}[f[2]], nil))
+				continue
 			}
 			if len(f) > 1 && f[1] == "S" && strings.HasPrefix(f[0], "c12a") {
 				fmt.Fprintln(w, runApp(f[0], strings.HasSuffix(f[0], "1"), nil))
